@@ -325,16 +325,17 @@ def install(fault=None):
     real_prod_init = sh.Producer.__init__
     real_generate = sh.Producer.generate
 
-    def prod_init(self, muts, abort_flag, original):
-        real_prod_init(self, muts, abort_flag, original)
+    def prod_init(self, muts, abort_flag, original, *a, **kw):
+        real_prod_init(self, muts, abort_flag, original, *a, **kw)
         self._verif_original = original
         emit('sweep', muts=cls_names(muts), base=toks(original),
              distinct=distinct_ids(original), nnodes=nodes.count_nodes(original))
 
-    def generate(self, skip, params):
+    def generate(self, skip, params, *a, **kw):
+        # extra arguments of a refactored producer are passed through
         emit('generate', skip=skip, params=params)
         n = 0
-        for task in real_generate(self, skip, params):
+        for task in real_generate(self, skip, params, *a, **kw):
             n += 1
             try:
                 simp = pickle.loads(task.simp)
